@@ -716,8 +716,63 @@ def r4(ctx):
     ctx.floor(rule, k, "C08.R4.int_arms")
 
 
+def walk_outside_closures(ex):
+    """sub-expressions of an origin that are evaluated unconditionally: does not descend into closures handed to combinators"""
+    if not isinstance(ex, tuple) or not ex:
+        return
+    if ex[0] == "agg" and len(ex) > 1 and ex[1] == "closure":
+        return
+    yield ex
+    for x in ex[1:]:
+        if isinstance(x, tuple):
+            if x and isinstance(x[0], str):
+                yield from walk_outside_closures(x)
+            else:
+                for y in x:
+                    if isinstance(y, tuple):
+                        if y and isinstance(y[0], str):
+                            yield from walk_outside_closures(y)
+                        else:
+                            for z in y:
+                                if isinstance(z, tuple):
+                                    yield from walk_outside_closures(z)
+
+
+def r5(ctx):
+    rule = "C08.R5"
+    ctx.rule(rule, "parsed extension marker reaches the model on every path: the Range handed to Type::integer_with_range_opt by the "
+                   "attribute parser depends on IntegerRange.1 (the `,...` flag) outside of any closure passed to map / and_then, "
+                   "so `integer(min..max,...)` keeps the marker although it has no bounded range")
+    P = ctx.program()
+    p = fn_body(ctx, rule, P, "proc_macro::attribute::parse_type_pre_stepped")
+    if not p:
+        return
+    O = X.Origins(p, P)
+    sites = [cs for cs in p.calls() if cs.name in ("integer_with_range_opt", "integer_with_range")]
+    if not sites:
+        ctx.fail(rule, "anchor-lost:integer_with_range_opt", "the integer arm no longer builds the type through integer_with_range_opt",
+                 "%s:%d" % (p.file, p.line))
+        return
+    for cs in sites:
+        a = O.call_args(cs)[0]
+
+        def is_flag(e):
+            return e[0] == "field" and e[2] == "1" and any(x[0] == "call" and "IntegerRange" in x[1] for x in X.walk(e[1]))
+        everywhere = any(is_flag(e) for e in X.walk(a))
+        uncond = any(is_flag(e) for e in walk_outside_closures(a))
+        detail = {"argument": F.rd(a)[:300], "flag_used": everywhere, "flag_used_outside_closures": uncond}
+        if not everywhere:
+            ctx.fail(rule, "integer#extensible-dropped", "the Range built for `integer(..)` does not depend on the parsed `,...` flag", cs.loc(), detail)
+        elif not uncond:
+            ctx.fail(rule, "integer#extensible-conditional", "the parsed `,...` flag reaches the Range only inside a closure (bounded ranges): "
+                                                             "`integer(min..max,...)` is read back as not extensible", cs.loc(), detail)
+        else:
+            ctx.ok(rule, "integer#extensible", detail)
+
+
 def run(ctx):
     r1(ctx)
     r2(ctx)
     r3(ctx)
     r4(ctx)
+    r5(ctx)
